@@ -689,6 +689,20 @@ func vDiscipline(out *vOut) {
 			out.Fail("C08:race:"+l, "accesses to "+l+" from concurrently running threads are neither all atomic nor all reads", map[string]any{"location": l, "conflicting_sites": why, "source": "static access table (coq/gen/Access.v)"})
 		}
 	}
+	// package-level sync.Pool variables
+	if b, err := os.ReadFile(path); err == nil {
+		txt := string(b)
+		if i := strings.Index(txt, "Definition shared_pools"); i >= 0 {
+			known := map[string]bool{"layer4.bufPool": true, "layer4.udpBufPool": true}
+			for _, m := range regexp.MustCompile(`"([^"]+)"`).FindAllStringSubmatch(txt[i:], -1) {
+				out.Case(fmt.Sprintf("CSharedPool %q %s", m[1], cBool(known[m[1]])), "shared-pool/known="+cBool(known[m[1]]), true, nil)
+				if !known[m[1]] {
+					out.Fail("C08:shared:"+m[1], "package-level sync.Pool "+m[1]+": its objects pass from one connection to the next, and nothing shows that they carry no per-connection state",
+						map[string]any{"pool": m[1], "source": "coq/gen/Access.v (shared_pools)"})
+				}
+			}
+		}
+	}
 	out.Stat("discipline.locations", len(locs))
 	out.Stat("discipline.entries", len(tab))
 	out.Stat("discipline.flagged", flagged)
